@@ -31,7 +31,11 @@ def linear_step(R, unit, step):
     br = sel8(R, 'br', unit) != 0
     s7 = z3.If(isi, z3.SignExt(9, z3.Extract(6, 0, R['stepi'])), z3.SignExt(9, z3.Extract(6, 0, R['stepj'])))
     s16 = z3.If(isi, R['stepi0'], R['stepj0'])
-    plus = z3.If(z3.Or(br, z3.And(R['stp16'] == 1, R['cmd'] == 0)), s16, s7)
+    # the 16-bit step register replaces the 7-bit field when bit reversal applies (modulo off) or stp16 is set in Teak
+    # mode; in the latter case a unit whose modulo flag is set takes only 9 bits of it (sign-extended) - visible when the
+    # modulo arithmetic itself is disabled by the instruction (the dmod forms)
+    m_on = sel8(R, 'm', unit) != 0
+    plus = z3.If(z3.And(R['stp16'] == 1, R['cmd'] == 0), z3.If(m_on, z3.SignExt(7, z3.Extract(8, 0, s16)), s16), z3.If(z3.And(br, z3.Not(m_on)), s16, s7))
     tbl = [0, 1, 0xFFFF, None, 2, 0xFFFE, 2, 0xFFFE]
     out = z3.BitVecVal(0xFFFE, 16)
     for k in range(6, -1, -1):
@@ -84,6 +88,17 @@ def job_kernels(tier, seed):
     ck.prove('RnAndModify.linear', A + [z3.Not(m_on)], z3.And(*goals), vars=V(),
              sample='modulo off: r[unit] += configured step (+-1, +-2, sign-extended 7-bit stepi/j, or 16-bit stepi0/j0 when bit-reversed or stp16 in Teak mode) mod 2^16, r3/r7 := 0 in end-pointer mode; the returned (access) value is the pre-modified register; nothing else changes')
     ck.prove('RnAndModify.zero_step', A + [step == 0, z3.Not(ep)], z3.And(*[post['r[%d]' % k] == R['r[%d]' % k] for k in range(8)]), vars=V(), sample='a zero step never changes the register (any modulo / bit-reverse configuration)')
+    # ---- modulo disabled by the instruction (the dmod forms: modr ...,dmod / edmod / demod / ddmod, mma with DMod sides):
+    # the register steps linearly whatever the unit's modulo configuration says
+    rd, postd = run('@k_rnmod', [ip, unit, step, 1])
+    goals = [bv(rd[1], 16) == r_old, z3.Not(kit.exit_cond(ex)), kit.obligations(ex)]
+    for k in range(8):
+        goals.append(postd['r[%d]' % k] == z3.If(U == k, newr, R['r[%d]' % k]))
+    for f in postd:
+        if not f.startswith('r[') and not postd[f].eq(R[f]):
+            goals.append(postd[f] == R[f])
+    ck.prove('RnAndModify.dmod', A, z3.And(*goals), vars=V(),
+             sample='disable-modulo forms: r[unit] += configured step mod 2^16 for every modulo / bit-reverse configuration of the unit (modi/modj and m[unit] are ignored), the access uses the pre-modified value')
     # ---- modulo on, step +-1, in-range start: cyclic walk through [base, base+mod], high bits untouched, both cmd values
     mod = z3.If(z3.ULT(U, 4), R['modi'], R['modj'])
     mask = modmask(mod)
@@ -120,6 +135,11 @@ def job_kernels(tier, seed):
     throws = z3.Or(*[kit.path_cond(p) for p, k_, _ in ex.exits if k_ == 'throw']) if [1 for p, k_, _ in ex.exits if k_ == 'throw'] else z3.BoolVal(False)
     ck.prove('OffsetAddress', A + [z3.ULT(off, 4), z3.Not(z3.And(off == 2, emod))], z3.And(bv(r4[1], 16) == want, z3.Not(throws), *g), vars=V({'address': addr, 'offset': off}),
              sample='offset +0 / +1 / -1 / -1*: address +-1, with +1 wrapping to the buffer base at base+mod when modulo is on (offset -1 under modulo is the documented unimplemented case)')
+    r5, post5 = run('@k_offset', [ip, unit, addr, off, 1])
+    g5, _ = c03.diff_goal(post5, R, R)
+    want5 = z3.If(off == 0, addr, z3.If(off == 1, addr + 1, addr - 1))
+    ck.prove('OffsetAddress.dmod', A + [z3.ULT(off, 4)], z3.And(bv(r5[1], 16) == want5, z3.Not(kit.exit_cond(ex)), *g5), vars=V({'address': addr, 'offset': off}),
+             sample='disable-modulo forms: the offset address is address +-1 (or +0) whatever the modulo configuration, and is always defined')
     return ck.export()
 
 
